@@ -312,6 +312,7 @@ struct rsink {
     struct urefcount urefcount;
     int id;
     bool accept;
+    unsigned reject_count;
     int request_mode;
     struct urequest *reqs[RSINK_MAX_REQ];
     int nreqs;
@@ -379,7 +380,9 @@ static int rsink_control(struct upipe *upipe, int command, va_list args)
         case UPIPE_SET_FLOW_DEF: {
             struct uref *fd = va_arg(args, struct uref *);
             lab_ev(EV_SINK_FLOWDEF, s->id, s->accept, lab_dict_hash(fd), 0, NULL, "");
-            return s->accept ? UBASE_ERR_NONE : UBASE_ERR_INVALID;
+            /* a rejecting output answers with any error code (the sink id picks it) */
+            static const int codes[] = { UBASE_ERR_INVALID, UBASE_ERR_UNHANDLED, UBASE_ERR_BUSY, UBASE_ERR_EXTERNAL };
+            return s->accept ? UBASE_ERR_NONE : codes[(s->id + s->reject_count++) & 3];
         }
         case UPIPE_REGISTER_REQUEST: {
             struct urequest *req = va_arg(args, struct urequest *);
